@@ -316,7 +316,7 @@ func RunC13(ctx *core.Ctx, rep *core.Report) {
 		return
 	}
 	defer os.RemoveAll(logDir)
-	perG := ctx.Pick(6, 200)
+	perG := ctx.Pick(6, 100)
 	cmd := exec.Command(raceBin, "c13race", strconv.FormatInt(ctx.Seed, 10), "16", strconv.Itoa(perG), strconv.Itoa(ctx.Pick(2, 16)))
 	cmd.Env = append(os.Environ(), "GORACE=halt_on_error=0 log_path="+filepath.Join(logDir, "race"), "GOMAXPROCS=16")
 	out, runErr := cmd.CombinedOutput()
